@@ -128,6 +128,24 @@ def step (st : St) (line : String) : St × Verdict :=
     match id.toNat?, ep.toNat?, len.toNat? with
     | some _, some _, some _ => (st, .diff "Append failed on the implementation")
     | _, _, _ => (st, .bad "append")
+  | ["refuse", id, _, "=>", res, act, asz] =>
+    -- an Append whose encoder fails part-way: refused, and nothing of it may reach the log; only the rotation
+    -- check at the start of Append has its effect (`writeRec` with no bytes)
+    match kv [act] "active", (kv [asz] "asize").bind (·.toNat?), st.model.mem with
+    | some a, some asize, some mm =>
+      if res != "err" then (st, .oracle s!"REFUSED-APPEND-ACKED id={id}: an Append whose encoding failed was acknowledged")
+      else
+        let (d, m1, _) := F3.Wal.writeRec cfg st.model.dir mm a []
+        let st' := { st with model := { st.model with dir := d, mem := some m1 },
+                             obs := { st.obs with active := some a, files := insertNew st.obs.files a } }
+        match m1.active with
+        | some ast =>
+          if ast.name != a then (st', .diff s!"refused append: model's active file is {ast.name}")
+          else if fileSize cfg ((d.get a).getD []) != asize then
+            (st', .oracle s!"REFUSED-APPEND-LEFT-BYTES id={id} file={a}: the active file holds {asize} bytes, {fileSize cfg ((d.get a).getD [])} were acknowledged — a refused Append left part of its record in the log")
+          else (st', .ok "append_refused")
+        | none => (st', .diff "refused append: model has no active file")
+    | _, _, _ => (st, .bad "refuse")
   | ["append", id, ep, len, "=>", "ok", act, asz] =>
     match id.toNat?, ep.toNat?, len.toNat?, kv [act] "active", (kv [asz] "asize").bind (·.toNat?) with
     | some id, some ep, some len, some a, some asize =>
